@@ -109,6 +109,21 @@ func watchdog(out string, res *Result) {
 		stepMu.Lock()
 		name, since := stepName, stepSince
 		stepMu.Unlock()
+		if strings.HasPrefix(name, "primary-op") && time.Since(since) > 30*time.Second {
+			// A write on the primary that does not return (normal: well below 1 ms) is
+			// reported with its own signature: the history of the property cannot even
+			// be completed. (That replicas must not block the primary is C15's
+			// statement; here the blocked write is what stands between the replicas
+			// and the primary's state.)
+			buf := make([]byte, 2<<20)
+			buf = buf[:runtime.Stack(buf, true)]
+			r := *res
+			where := blockedWriter(string(buf))
+			r.Verdict, r.Sig = "violation", "primary-write-blocked:at="+where
+			r.Msg = fmt.Sprintf("step %q on the primary did not return within 30 s; blocked at %s\n%s", name, where, interesting(string(buf)))
+			writeResult(out, &r)
+			os.Exit(0)
+		}
 		if name != "" && time.Since(since) > 60*time.Second {
 			buf := make([]byte, 1<<20)
 			buf = buf[:runtime.Stack(buf, true)]
@@ -168,10 +183,25 @@ func runCase(spec *ChildSpec) *Result {
 		}
 		res.WaitMisses++
 	}
-	doEvents := func(boundary int) *Result {
+	// doEvents runs the replica events of one boundary. hot=false: the ordinary
+	// events, before the phase starts; hot=true: the events of replicas marked
+	// Hot, executed by a second goroutine WHILE the phase's writes run.
+	var evMu sync.Mutex // reps / faults / res.WaitMisses are touched by both goroutines
+	doEvents := func(boundary int, hot bool) *Result {
 		for i, rp := range c.Replicas {
+			// a Hot replica's JOIN at boundary 0 of a case whose burst comes later is an
+			// ordinary join (hot_restart role); its other events are hot
+			isHot := rp.Hot && !(rp.RestartAt >= 0 && boundary == rp.JoinAt && boundary != rp.RestartAt)
+			if boundary == len(c.Phases) {
+				isHot = false // no phase left to overlap
+			}
+			if isHot != hot {
+				continue
+			}
 			name := fmt.Sprintf("replica%d", i)
-			setStep("event boundary %d %s", boundary, name)
+			if !hot {
+				setStep("event boundary %d %s", boundary, name)
+			}
 			if rp.RestartAt == boundary && reps[i] != nil && reps[i].Joined {
 				if !reps[i].stopReplica(30 * time.Second) {
 					buf := make([]byte, 1<<20)
@@ -186,11 +216,13 @@ func runCase(spec *ChildSpec) *Result {
 					af = &applyFault{At: int64(rp.FailApplyAt)}
 					faults = append(faults, af)
 				}
-				n, err := startReplica(name, mkdir(spec.Base, name), rp.Cfg, prim.Addr, fmt.Sprintf("replica-%d.test:7000", i), nil, af)
+				n, err := startReplica(name, mkdir(spec.Base, name), rp.Cfg, prim.Addr, fmt.Sprintf("replica-%d.test:7000", i), replicaCfgFor(c), af)
 				if err != nil {
 					return infra("%v", err)
 				}
+				evMu.Lock()
 				reps[i] = n
+				evMu.Unlock()
 				if rp.Wait {
 					waitSession(n)
 				}
@@ -200,7 +232,7 @@ func runCase(spec *ChildSpec) *Result {
 					reps[i].ApplyFault = &applyFault{At: int64(rp.FailApplyAt)}
 					faults = append(faults, reps[i].ApplyFault)
 				}
-				if err := reps[i].restartReplica(prim.Addr, nil); err != nil {
+				if err := reps[i].restartReplica(prim.Addr, replicaCfgFor(c)); err != nil {
 					// a replica that cannot reopen its own database after a clean
 					// stop is a defect, but of the engine, not of replication
 					res.Verdict, res.Sig, res.Msg = "abandon", "replica-reopen-error", err.Error()
@@ -215,11 +247,19 @@ func runCase(spec *ChildSpec) *Result {
 	}
 	t0 := time.Now()
 	for p := 0; p <= len(c.Phases); p++ {
-		if r := doEvents(p); r != nil {
+		if r := doEvents(p, false); r != nil {
 			return r
 		}
 		if p == len(c.Phases) {
 			break
+		}
+		var hotDone chan *Result
+		for _, rp := range c.Replicas {
+			hotHere := rp.Hot && (rp.RestartAt == p || rp.UpAgainAt == p || (rp.JoinAt == p && rp.RestartAt < 0))
+			if hotHere && hotDone == nil {
+				hotDone = make(chan *Result, 1)
+				go func(p int) { hotDone <- doEvents(p, true) }(p)
+			}
 		}
 		for i, o := range c.Phases[p].Ops {
 			w0 := time.Now()
@@ -235,6 +275,13 @@ func runCase(spec *ChildSpec) *Result {
 			}
 		}
 		setStep("")
+		if hotDone != nil {
+			setStep("wait-hot-events phase %d", p)
+			if r := <-hotDone; r != nil {
+				return r
+			}
+			setStep("")
+		}
 		if ms := c.Phases[p].PauseMs; ms > 0 {
 			time.Sleep(time.Duration(ms) * time.Millisecond)
 		}
@@ -388,6 +435,7 @@ func cause(c *Case, res *Result, idx int) string {
 		}
 	}
 	add(huge, "hugevalue")
+	add(c.Shape == "hot_phase", "hotphase")
 	add(c.Shape == "aged_burst", "agedburst")
 	add(c.Shape == "aged_burst" && c.FastHeartbeat, "fasthb")
 	if idx >= 0 && idx < len(c.Replicas) {
@@ -433,4 +481,43 @@ func doOp(e *engine.EngineFacade, c *Case, o Op) error {
 		return tx.Commit()
 	}
 	return fmt.Errorf("unknown op %q", o.Op)
+}
+
+// blockedWriter names the innermost repository frame (plus wait reason) of
+// the goroutine that executes the primary's operations (the one with doOp).
+func blockedWriter(dump string) string {
+	for _, g := range strings.Split(dump, "\n\n") {
+		if !strings.Contains(g, "checks/c14.doOp") {
+			continue
+		}
+		lines := strings.Split(g, "\n")
+		reason := ""
+		if i := strings.IndexByte(lines[0], '['); i >= 0 {
+			reason = strings.TrimSuffix(strings.TrimSpace(lines[0][i+1:]), "]:")
+			if j := strings.IndexByte(reason, ','); j >= 0 {
+				reason = reason[:j]
+			}
+		}
+		for _, l := range lines[1:] {
+			if strings.HasPrefix(l, "github.com/KevoDB/kevo/pkg/") {
+				fn := strings.TrimPrefix(l, "github.com/KevoDB/kevo/pkg/")
+				if k := strings.LastIndexByte(fn, '('); k > 0 {
+					fn = fn[:k]
+				}
+				return fn + "[" + reason + "]"
+			}
+		}
+		return "?[" + reason + "]"
+	}
+	return "?"
+}
+
+// replicaCfgFor: DefaultReplicaConfig with the short dial timeout and, when the
+// case says so, a short reconnect delay (ReplicaConfig.Connection.RetryBaseDelay).
+func replicaCfgFor(c *Case) *replication.ReplicaConfig {
+	rc := replicaConfig()
+	if c.RetryBaseMs > 0 {
+		rc.Connection.RetryBaseDelay = time.Duration(c.RetryBaseMs) * time.Millisecond
+	}
+	return rc
 }
